@@ -230,7 +230,7 @@ PROPS = {
         design_ref="DESIGN.md section 4, C19",
     ),
     "C20": S(
-        fmt.C20 + [o.exi1_producers, o.alias1, o.opc1_cache_normalisation, o.opc6_exit_templates, version.ver1_opcodes] + version.API,
+        fmt.C20 + [o.exi1_producers, o.alias1, o.opc1_cache_normalisation, o.opc6_exit_templates, o.opc12_block_walk_table, o.opc13_exception_path_exit, o.opc14_async_position_310, version.ver1_opcodes] + version.API,
         explanation="The trickery call is inside a try whose Exception handler warns with InspectionWarning and assigns the referents result (never re-raises), and referents is used when trickery is unavailable; the mode switch is a plain module-level global (not thread-local), "
                     "written only in set_trickery_enabled and _check_trickery_available and always under _trickery_lock; set_trickery_enabled stores its argument unchanged; _check_trickery_available returns the stored value whenever it is not None and re-tests after taking the lock; "
                     "a failing self-test warns and stores False; the referents producer filters bound __exit__/__aexit__ methods, derives is_async from the name, takes obj from __self__, appends the exiting entry last, and roots the scan at the owning generator exactly on 3.11/3.12.",
